@@ -51,7 +51,12 @@ import stat
 
 from vlib import env
 
-THEOREMS = []
+THEOREMS = [
+    "delta_empty_iff", "shelveWork_delta", "shelveShelf_delta", "shelve_chunks", "hunk_partition",
+    "shelve_removes_exactly", "unshelve_restores", "unshelve_restores_fixed",
+    "exec_dropped_witness", "stale_exec_witness", "reoccupied_witness",
+    "Mgr.nextId_fresh", "Mgr.delete_keeps_others", "Mgr.shelf_ids_unique", "Mgr.new_after_new", "Mgr.id_reuse_witness",
+]
 RULE = ("scenario = (tree format, random basis tree, 1..6 random pending changes); case = (scenario, subset of the "
         "atomic shelvable items: add / delete / rename / kind / target / each text hunk); all subsets of <= 6 items, "
         "sampled above; non-trivial = the subset is non-empty and proper or mixes aspects of one id; distinct by "
@@ -273,6 +278,30 @@ class Builder:
         self.ops.append("delete-" + mode)
         return path
 
+    def replace(self):
+        """remove a versioned file / symlink and add something new (a new id) under the same name"""
+        fid, path = self.pick(["file", "symlink"])
+        if path is None or fid not in self.basis_ids:
+            return None
+        p = _join(self.d, path)
+        self.wt.remove([path], keep_files=False, force=True)
+        if os.path.lexists(p):
+            os.unlink(p)
+        kind = self.rng.choice(["file", "directory", "symlink"])
+        if kind == "file":
+            nid = self.fresh(b"f")
+            with open(p, "wb") as f:
+                f.write(b"replacement %s\n" % nid)
+        elif kind == "directory":
+            nid = self.fresh(b"d")
+            os.mkdir(p)
+        else:
+            nid = self.fresh(b"l")
+            os.symlink("repl-%s" % nid.decode(), p)
+        self.wt.add([path], ids=[nid])
+        self.ops.append("replace-by-new-" + kind)
+        return path
+
     def chmod(self):
         fid, path = self.pick(["file"])
         if path is None:
@@ -320,7 +349,7 @@ class Builder:
 
 
 OPS = ["edit", "edit", "edit", "add", "add", "delete", "delete", "rename", "move", "chmod", "kind", "retarget",
-       "binary", "rename+edit", "add-dir-with-children", "chmod+edit"]
+       "binary", "rename+edit", "add-dir-with-children", "chmod+edit", "replace"]
 
 
 def build_scenario(seedt, root=None):
@@ -413,45 +442,55 @@ def dump_wt(d):
     return ents, sorted(missing), strays, confl, rec
 
 
-def _under(tree):
-    tt = getattr(tree, "_transform", None)
-    return None if tt is None else tt._tree
-
-
-def _preview_text(tree, path, file_id):
-    """PreviewTree.get_file looks an unmodified text up in the underlying tree under the NEW path;
-    for a renamed, unmodified file read it from the underlying tree by id instead"""
-    from dromedary.errors import NoSuchFile
-    try:
-        return tree.get_file_text(path)
-    except NoSuchFile:
-        base = _under(tree)
-        if base is None:
-            raise
-        return base.get_file_text(base.id2path(file_id))
-
-
-def _preview_target(tree, path, file_id):
-    from dromedary.errors import NoSuchFile
-    try:
-        return tree.get_symlink_target(path)
-    except (NoSuchFile, OSError):
-        base = _under(tree)
-        if base is None:
-            raise
-        return base.get_symlink_target(base.id2path(file_id))
+def dump_preview(tree):
+    """dump of a PreviewTree by trans-id (its path-based accessors look renamed / replaced paths up in
+    the underlying tree under the wrong path, a PreviewTree defect noted in the report)"""
+    tt = tree._transform
+    base = tt._tree
+    ents = {}
+    with tree.lock_read():
+        for path, ie in tree.iter_entries_by_dir():
+            fid = ie.file_id
+            trans_id = tt.trans_id_file_id(fid)
+            k = tt.final_kind(trans_id)
+            new = trans_id in tt._new_contents
+            try:
+                bpath = base.id2path(fid)
+            except Exception:  # noqa
+                bpath = None
+            if k == "file":
+                if new:
+                    with open(tt._limbo_name(trans_id), "rb") as f:
+                        text = f.read()
+                else:
+                    text = base.get_file_text(bpath)
+                x = tt._new_executability.get(trans_id)
+                if x is None:
+                    x = bool(bpath is not None and base.kind(bpath) == "file" and base.is_executable(bpath))
+                de = ("f", text, bool(x))
+            elif k == "symlink":
+                tgt = os.readlink(tt._limbo_name(trans_id)) if new else base.get_symlink_target(bpath)
+                de = ("l", tgt.encode() if isinstance(tgt, str) else tgt, False)
+            elif k == "directory":
+                de = ("d", b"", False)
+            else:
+                de = ("?", repr(k).encode(), False)
+            ents[fid] = (ie.parent_id, ie.name) + de
+    return ents
 
 
 def dump_tree(tree):
     """same shape for a revision / preview tree"""
+    if getattr(tree, "_transform", None) is not None:
+        return dump_preview(tree)
     ents = {}
     with tree.lock_read():
         for path, ie in tree.iter_entries_by_dir():
             k = tree.kind(path)
             if k == "file":
-                de = ("f", _preview_text(tree, path, ie.file_id), bool(tree.is_executable(path)))
+                de = ("f", tree.get_file_text(path), bool(tree.is_executable(path)))
             elif k == "symlink":
-                de = ("l", _preview_target(tree, path, ie.file_id).encode(), False)
+                de = ("l", tree.get_symlink_target(path).encode(), False)
             elif k == "directory":
                 de = ("d", b"", False)
             else:
@@ -643,16 +682,25 @@ def run_case(arg):
         res["errtext"] = str(e)[:300]
     res["sid"] = sid
     res["ids1"] = WorkingTree.open(d).get_shelf_manager().active_shelves()
-    res["d1"] = dump_wt(d)
+    try:
+        res["d1"] = dump_wt(d)
+    except Exception as e:  # noqa  (an unreadable working tree is reported by the oracle)
+        res["d1"] = ({}, [], {}, "corrupt", {}, "%s: %s" % (type(e).__name__, str(e)[:200]))
+        shutil.rmtree(d, ignore_errors=True)
+        return res
     if res["err"] is None:
         # the stored shelf tree
         wt = WorkingTree.open(d)
         mgr = wt.get_shelf_manager()
         try:
             with wt.lock_tree_write():
-                u = mgr.get_unshelver(sid)
+                u = mgr.get_unshelver(sid)     # a separate unshelver for looking at the stored tree
                 try:
                     res["S"] = dump_tree(u.transform.get_preview_tree())
+                finally:
+                    u.finalize()
+                u = mgr.get_unshelver(sid)
+                try:
                     res["msg"] = u.message
                     merger = u.make_merger()
                     res["nconf"] = merger.do_merge()
@@ -713,4 +761,619 @@ def diff_dumps(exp, got):
             else:
                 attrs = ["absent" if g is None else "present"]
             out.append((fid, attrs, e, g))
+    return out
+
+
+def expect_shelf(an, sel):
+    """the stored tree the property's reading implies: basis + exactly the selected items"""
+    B, W, items, hunks = an["B"], an["W"], an["items"], an["hunks"]
+    X = dict(B)
+    by = {}
+    for i in sel:
+        kind, fid, k = items[i]
+        by.setdefault(fid, []).append((kind, k))
+    for fid, mine in by.items():
+        kinds = {k for k, _ in mine}
+        b, w = B.get(fid), W.get(fid)
+        if "add" in kinds:
+            X[fid] = w
+            continue
+        if "delete" in kinds:
+            X.pop(fid, None)
+            continue
+        p, n, k, c, x = b
+        if "rename" in kinds:
+            p, n = w[0], w[1]
+        if kinds & {"kind", "target", "binary"}:
+            k, c = w[2], w[3]
+            x = (b[4] if b[2] == "f" else w[4]) if k == "f" else False
+        hk = {j for kk, j in mine if kk == "hunk"}
+        if hk:
+            hs = hunks[fid]
+            c = b"".join(splice(b[3].splitlines(True), hs, hk))
+        X[fid] = (p, n, k, c, x)
+    return X
+
+
+def py_wf(t):
+    roots = [i for i, e in t.items() if e[0] is None]
+    if len(roots) != 1:
+        return False
+    seen = set()
+    for i, e in t.items():
+        if e[0] is None:
+            continue
+        pe = t.get(e[0])
+        if pe is None or pe[2] != "d":
+            return False
+        if (e[0], e[1]) in seen:
+            return False
+        seen.add((e[0], e[1]))
+    for i in t:
+        j, n = i, 0
+        while t[j][0] is not None:
+            j = t[j][0]
+            n += 1
+            if n > len(t):
+                return False
+    return True
+
+
+# --------------------------------------------------------------------------
+# model lines
+
+class Enc:
+    """interning of ids / names / chunks of one scenario"""
+
+    def __init__(self, an):
+        self.an = an
+        B, W = an["B"], an["W"]
+        fids = sorted(set(B) | set(W), key=lambda f: (f != ROOT, f))
+        self.ids = {f: i for i, f in enumerate(fids)}
+        self.fids = fids
+        names = sorted({e[1] for e in list(B.values()) + list(W.values())})
+        self.names = {n: i for i, n in enumerate(names)}
+        self.rnames = names
+        self.codes, self.rcodes = {}, [None]
+        self.segs = {f: segments(B[f][3].splitlines(True), hs) for f, hs in an["hunks"].items()}
+
+    def code(self, b):
+        c = self.codes.get(b)
+        if c is None:
+            c = self.codes[b] = len(self.rcodes)
+            self.rcodes.append(b)
+        return c
+
+    def chunks(self, fid, e, side):
+        if e[2] == "d":
+            return []
+        if fid in self.segs and e[2] == "f":
+            return [self.code(b"".join(s[side])) for s in self.segs[fid]]
+        return [self.code(e[3])]
+
+    def tree(self, t, side):
+        out = []
+        for fid in self.fids:
+            e = t.get(fid)
+            if e is None:
+                continue
+            ch = self.chunks(fid, e, side)
+            out.append("%d:%s:%d:%s:%s:%s" % (
+                self.ids[fid], "~" if e[0] is None else self.ids[e[0]], self.names[e[1]], e[2],
+                "T" if e[4] else "F", ".".join(map(str, ch)) or "-"))
+        return ";".join(out) or "-"
+
+    def sel(self, sel, via, kept):
+        items = self.an["items"]
+        by = {}
+        for i in sel:
+            kind, fid, k = items[i]
+            by.setdefault(fid, []).append((kind, k))
+        out = []
+        for fid in self.fids:
+            mine = by.get(fid)
+            if not mine:
+                continue
+            kinds = {k for k, _ in mine}
+            content = "n"
+            if kinds & {"kind", "target", "binary"}:
+                content = "w"
+            hk = {j for kk, j in mine if kk == "hunk"}
+            if hk:
+                nh = len(self.an["hunks"][fid])
+                if len(hk) == nh and via == "content":
+                    content = "w"
+                else:
+                    bits = ["0"] * (2 * nh + 1)
+                    for j in hk:
+                        bits[2 * j + 1] = "1"
+                    content = "h" + "".join(bits)
+            out.append("%d:%s:%s:%s:%s" % (self.ids[fid], "T" if kinds & {"add", "delete"} else "F",
+                                           "T" if "rename" in kinds else "F", content,
+                                           "T" if fid in kept and "delete" in kinds else "F"))
+        return ";".join(out) or "-"
+
+    def decode(self, s):
+        """model tree -> {fid: (parent, name, kind, content, exec)}"""
+        out = {}
+        if s == "-":
+            return out
+        for ent in s.split(";"):
+            i, p, n, k, x, c = ent.split(":")
+            content = b"" if c == "-" else b"".join(self.rcodes[int(q)] for q in c.split("."))
+            out[self.fids[int(i)]] = (None if p == "~" else self.fids[int(p)], self.rnames[int(n)], k, content, x == "T")
+        return out
+
+
+def kept_ids(an):
+    """deleted ids whose basis path still holds an unversioned file in the working tree (remove --keep)"""
+    B = an["B"]
+
+    def path(fid):
+        e = B[fid]
+        return "" if e[0] is None else (path(e[0]) + "/" + e[1]).lstrip("/")
+    return {fid for fid in B if fid not in an["W"] and fid not in an["missing"] and path(fid) in an["strays"]}
+
+
+def model_line(enc, an, sel, via, variant, rec1):
+    ids = ",".join(str(i) for i in range(len(enc.fids)))
+    rec = ",".join(str(enc.ids[f]) for f in sorted(rec1, key=lambda f: enc.ids.get(f, -1)) if rec1[f] and f in enc.ids) or "-"
+    return "shelve %s %s %s %s %s %s" % (variant, ids, enc.tree(an["B"], 0), enc.tree(an["W"], 1),
+                                        enc.sel(sel, via, kept_ids(an)), rec)
+
+
+# --------------------------------------------------------------------------
+# probes: which of the two executable-bit behaviours does the code under test have
+
+def _probe_tree():
+    wt = env.make_tree("2a")
+    d = wt.basedir
+    with open(d + "/t", "wb") as f:
+        f.write(b"a\nb\nc\n")
+    wt.add(["t"], ids=[b"t-id"])
+    wt.commit("base")
+    return wt
+
+
+def _shelve_all_unshelve(wt):
+    from breezy import shelf
+    from breezy.workingtree import WorkingTree
+    with wt.lock_tree_write():
+        cr = shelf.ShelfCreator(wt, wt.basis_tree())
+        try:
+            cr.shelve_all()
+            sid = wt.get_shelf_manager().shelve_changes(cr)
+        finally:
+            cr.finalize()
+    wt = WorkingTree.open(wt.basedir)
+    with wt.lock_tree_write():
+        u = wt.get_shelf_manager().get_unshelver(sid)
+        try:
+            u.make_merger().do_merge()
+        finally:
+            u.finalize()
+    return wt
+
+
+def probe_variant():
+    """(keepExec, freshExec) of the code under test, from two one-file experiments"""
+    wt = _probe_tree()
+    d = wt.basedir
+    with open(d + "/n", "wb") as f:
+        f.write(b"new\n")
+    os.chmod(d + "/n", 0o755)
+    wt.add(["n"], ids=[b"n-id"])
+    _shelve_all_unshelve(wt)
+    keep = bool(os.stat(d + "/n").st_mode & 0o100)
+    wt = _probe_tree()
+    d = wt.basedir
+    with open(d + "/t", "wb") as f:
+        f.write(b"a\nB\nc\n")
+    os.chmod(d + "/t", 0o755)
+    _shelve_all_unshelve(wt)
+    fresh = bool(os.stat(d + "/t").st_mode & 0o100)
+    # a deleted file whose path is taken by a newly added one: shelving everything must work
+    wt = _probe_tree()
+    d = wt.basedir
+    wt.remove(["t"], keep_files=False, force=True)
+    with open(d + "/t", "wb") as f:
+        f.write(b"replacement\n")
+    wt.add(["t"], ids=[b"t2-id"])
+    try:
+        _shelve_all_unshelve(wt)
+        pathcheck = True
+    except Exception:  # noqa
+        pathcheck = False
+    return keep, fresh, pathcheck
+
+
+# --------------------------------------------------------------------------
+# finding families (classified from the concrete input)
+
+F_EXEC = "executable-bit-dropped-by-shelve"
+F_STALE = "unshelve-loses-uncommitted-executable-flip"
+F_REOCC = "shelved-deletion-path-reoccupied"
+
+
+def selected_kinds(an, sel):
+    by = {}
+    for i in sel:
+        kind, fid, k = an["items"][i]
+        by.setdefault(fid, set()).add(kind)
+    return by
+
+
+def reoccupied(an, sel):
+    """a selected deletion whose basis (parent, name) is held by another versioned id in the working tree"""
+    by = selected_kinds(an, sel)
+    B, W = an["B"], an["W"]
+    for fid, kinds in by.items():
+        if "delete" in kinds:
+            b = B[fid]
+            if any(e[0] == b[0] and e[1] == b[1] for f2, e in W.items() if f2 != fid):
+                return True
+    return False
+
+
+def classify_exec(an, sel, dd, stage, rec1, w1):
+    """family of an exec-only difference list, or None"""
+    by = selected_kinds(an, sel)
+    fams = set()
+    for fid, attrs, e, g in dd:
+        if attrs != ["exec"]:
+            return None
+        kinds = by.get(fid, set())
+        if stage == 1 and e[4] and not g[4] and kinds & {"delete", "kind", "binary"}:
+            fams.add(F_EXEC)
+        elif stage == 2 and e[4] and not g[4] and kinds & {"add", "kind"}:
+            fams.add(F_EXEC)
+        elif stage == 2 and kinds & {"hunk", "binary", "kind"} and fid in w1 and rec1.get(fid) != w1[fid][4]:
+            fams.add(F_STALE)
+        else:
+            return None
+    return fams.pop() if len(fams) == 1 else None
+
+
+# --------------------------------------------------------------------------
+# the run
+
+FORMATS = ["2a", "2a", "2a", "pack-0.92", "2a", "1.9", "2a", "knit"]
+
+
+def _short(t):
+    return {f.decode(): (None if e[0] is None else e[0].decode(), e[1], e[2],
+                         (e[3][:40] + b"...").decode("latin-1") if len(e[3]) > 40 else e[3].decode("latin-1"), e[4])
+            for f, e in t.items()}
+
+
+def subsets_of(ctx, n, cap):
+    import itertools
+    if n <= 6:
+        allsub = [list(c) for r in range(n + 1) for c in itertools.combinations(range(n), r)]
+        ctxfull = True
+    else:
+        allsub = [[], list(range(n))] + [[i] for i in range(n)]
+        while len(allsub) < 64:
+            allsub.append(sorted(ctx.rng.sample(range(n), ctx.rng.randint(2, n - 1))))
+        ctxfull = False
+    if len(allsub) > cap:
+        keep = [allsub[0], allsub[-1]] if ctxfull else allsub[:2]
+        rest = [s for s in allsub if s not in keep]
+        allsub = keep + ctx.rng.sample(rest, cap - 2)
+        ctxfull = False
+    return allsub, ctxfull
+
+
+def check_result(ctx, sc, an, enc, sel, via, res, variant):
+    """oracle + model comparison of one case"""
+    chosen = [an["items"][i] for i in sel]
+    case = dict(scenario=sc["seed"], sel=list(sel), via=via,
+                items=[(k, f.decode(), j) for k, f, j in chosen], ops=sc["ops"])
+    nontrivial = 0 < len(sel)
+    ctx.case(dict(B=enc.tree(an["B"], 0), W=enc.tree(an["W"], 1), sel=enc.sel(sel, via, kept_ids(an)),
+                  texts=sorted(h.hex()[:16] for h in enc.codes)), nontrivial=nontrivial)
+    for k, f, j in chosen:
+        ctx.count("item:" + k)
+    ctx.count("selected:%d/%d" % (len(sel), len(an["items"])))
+    expW1 = expect_shelved(an, sel)
+    expS = expect_shelf(an, sel)
+    is_closed = py_wf(expW1) and py_wf(expS)
+    w1, rec1 = res["d1"][0], res["d1"][4]
+    reocc = reoccupied(an, sel)
+    # ---- oracle ----------------------------------------------------------
+    if res["err"] is not None:
+        ctx.count("refused:" + res["err"])
+        if w1 != an["W"] or res["d1"][1] != an["missing"]:
+            ctx.violation(case, "shelving failed with %s but the working tree changed: %r" % (
+                res["err"], [(f, a) for f, a, e, g in diff_dumps(an["W"], w1)][:4]), family=F_REOCC if reocc else None)
+        if res["ids1"] != res["ids0"]:
+            ctx.count("stale-shelf-left-by-refused-transform")
+        if py_wf(expW1):
+            ctx.violation(case, "a selection whose remaining tree is well-formed was refused: %s %s" % (res["err"], res.get("errtext")),
+                          family=F_REOCC if reocc else None)
+    else:
+        if res["d1"][3] == "corrupt":
+            ctx.violation(case, "the working tree cannot be read after shelving: %s" % res["d1"][5],
+                          family=F_REOCC if reocc else None)
+            res["err"] = "E:Corrupt"
+            return case, model_line(enc, an, sel, via, variant, {}), is_closed
+        dd = diff_dumps(expW1, w1)
+        if dd:
+            ctx.violation(case, "after shelving the tree is not (basis for the selected changes, working tree for the others): "
+                          "%r" % ([(f.decode(), a, e and e[4], g and g[4]) if a == ["exec"] else (f.decode(), a) for f, a, e, g in dd][:4],),
+                          family=classify_exec(an, sel, dd, 1, rec1, w1) or (F_REOCC if reocc else None))
+        new = set(res["d1"][2]) - set(an["strays"])
+        if new:
+            ctx.violation(case, "shelving left new unversioned files: %r" % sorted(new))
+        sid = res["sid"]
+        if sid in res["ids0"] or any(sid <= x for x in res["ids0"]) or sorted(res["ids0"] + [sid]) != res["ids1"]:
+            ctx.violation(case, "shelf id %r not fresh / listing wrong: before %r after %r" % (sid, res["ids0"], res["ids1"]))
+        if not is_closed:
+            ctx.count("excluded:selection-not-closed")
+            ctx.count("excluded-outcome:" + (res.get("uerr") or ("conflicts" if res.get("nconf") else "quiet")))
+        elif "uerr" in res:
+            ctx.violation(case, "unshelving failed: %s %s" % (res["uerr"], res.get("uerrtext")), family=F_REOCC if reocc else None)
+        else:
+            w2 = res["d2"][0]
+            dd = diff_dumps(an["W"], w2)
+            if dd:
+                ctx.violation(case, "unshelving onto the unchanged tree does not restore it: %r" % (
+                    [(f.decode(), a, e and e[4], g and g[4]) if a == ["exec"] else (f.decode(), a) for f, a, e, g in dd][:4],),
+                    family=classify_exec(an, sel, dd, 2, rec1, w1) or (F_REOCC if reocc else None))
+            if res["nconf"] or res["d2"][3]:
+                ctx.violation(case, "unshelving reported %r conflicts" % (res["nconf"] or res["d2"][3]), family=F_REOCC if reocc else None)
+            new = set(res["d2"][2]) - set(an["strays"])
+            if new:
+                ctx.violation(case, "unshelving left new unversioned files: %r" % sorted(new))
+            if res["ids2"] != res["ids0"]:
+                ctx.violation(case, "shelf list after unshelve+delete %r != before %r" % (res["ids2"], res["ids0"]))
+            if res.get("msg") != "msg %s" % (list(sel),):
+                ctx.violation(case, "shelf message not preserved: %r" % (res.get("msg"),))
+    # ---- model -------------------------------------------------------------
+    line = model_line(enc, an, sel, via, variant, rec1 if res["err"] is None else {})
+    return case, line, is_closed
+
+
+def compare_model(ctx, enc, case, line, reply, res, is_closed):
+    ctx.traces += 1
+    if res["err"] is not None:
+        impl = res["err"]
+        if reply == "E:Reoccupied":
+            # the defective existing_path handling: any refusal / corruption is "the" outcome
+            impl = "E:Reoccupied"
+        if reply != impl:
+            ctx.mismatch(case, impl, reply, line=line)
+        return
+    if not reply.startswith("ok "):
+        ctx.mismatch(case, "ok", reply, line=line)
+        return
+    _, closed, w1, s, u, nconf = reply.split(" ")
+    if (closed == "T") != is_closed:
+        ctx.mismatch(case, "closed=%s (harness)" % is_closed, "closed=%s" % closed, line=line)
+    mw1 = enc.decode(w1)
+    if mw1 != res["d1"][0]:
+        ctx.mismatch(case, dict(stage="work tree after shelve", tree=_short(res["d1"][0])), _short(mw1), line=line)
+    if closed != "T":
+        return
+    if "S" in res and enc.decode(s) != res["S"]:
+        ctx.mismatch(case, dict(stage="stored shelf tree", tree=_short(res["S"])), _short(enc.decode(s)), line=line)
+    if "d2" in res and "uerr" not in res:
+        if enc.decode(u) != res["d2"][0]:
+            ctx.mismatch(case, dict(stage="after unshelve", tree=_short(res["d2"][0])), _short(enc.decode(u)), line=line)
+        if int(nconf) != len(res["nconf"] or []):
+            ctx.mismatch(case, dict(stage="conflicts", n=len(res["nconf"] or [])), nconf, line=line)
+    elif "uerr" in res:
+        ctx.mismatch(case, dict(stage="unshelve", err=res["uerr"]), "ok", line=line)
+
+
+def run_scenarios(ctx, seeds, cap, variant):
+    jobs, meta = [], []
+    for seedt in seeds:
+        try:
+            sc = build_scenario(seedt)
+            an = analyse(sc)
+        except Exception as e:  # noqa
+            ctx.count("scenario-build-failed:" + type(e).__name__)
+            continue
+        for o in sc["ops"]:
+            ctx.count("op:" + o)
+        ctx.count("format:" + sc["fmt"])
+        n = len(an["items"])
+        ctx.count("items:%d" % min(n, 9))
+        if n == 0:
+            continue
+        enc = Enc(an)
+        subs, full = subsets_of(ctx, n, cap)
+        if full:
+            ctx.count("scenarios-with-all-subsets")
+        for j, sel in enumerate(subs):
+            via = "content" if (j + len(sel)) % 3 == 0 else "lines"
+            jobs.append((sc, an, sel, via))
+            meta.append((sc, an, enc, sel, via))
+    results = ctx.pmap(run_case, jobs)
+    lines, pend = [], []
+    for (sc, an, enc, sel, via), res in zip(meta, results):
+        r = check_result(ctx, sc, an, enc, sel, via, res, variant)
+        if r is None:
+            continue
+        case, line, is_closed = r
+        lines.append(line)
+        pend.append((enc, case, line, res, is_closed))
+    if lines and ctx.model_available:
+        for (enc, case, line, res, is_closed), reply in zip(pend, ctx.model(lines)):
+            compare_model(ctx, enc, case, line, reply, res, is_closed)
+    for sc in {id(m[0]): m[0] for m in meta}.values():
+        shutil.rmtree(sc["dir"], ignore_errors=True)
+
+
+# --------------------------------------------------------------------------
+# shelf ids
+
+STRAYS = ["shelf-0", "shelf-03", "shelf-7x", "shelf-12.~1~", "xshelf-4", "shelf-", "README", "shelf--2", "shelf-9 9"]
+
+
+def run_manager(ctx, idx):
+    from breezy import shelf
+    from breezy.workingtree import WorkingTree
+    rng = random.Random("mgr %d %d" % (ctx.seed, idx))
+    wt = _probe_tree()
+    d = wt.basedir
+    mgr = wt.get_shelf_manager()
+    sdir = mgr.transport.local_abspath(".")
+    messages = {}
+    lines, impls, cases = [], [], []
+    strays_present = False
+    for step in range(rng.randint(4, 14)):
+        before = mgr.active_shelves()
+        names = sorted(os.listdir(sdir))
+        r = rng.random()
+        case = dict(mgr=idx, step=step, names=names)
+        # listing against the model
+        cases.append(dict(case, op="list"))
+        lines.append("names %s" % (",".join(n.replace(" ", "_") for n in names) or "-"))
+        impls.append(",".join(str(x) for x in sorted(mgr.get_shelf_ids([n.replace(" ", "_") for n in names]))) or "-")
+        if r < 0.5:
+            with open(d + "/t", "ab") as f:
+                f.write(b"step %d\n" % step)
+            with wt.lock_tree_write():
+                cr = shelf.ShelfCreator(wt, wt.basis_tree())
+                try:
+                    cr.shelve_all()
+                    sid = mgr.shelve_changes(cr, "m%d" % step)
+                finally:
+                    cr.finalize()
+            after = mgr.active_shelves()
+            messages[sid] = "m%d" % step
+            ctx.count("mgr:new")
+            ctx.case(dict(mgr="new", before=before))
+            cases.append(dict(case, op="new"))
+            lines.append("mgr %s n" % (",".join(map(str, before)) or "-"))
+            impls.append("%d | %s" % (sid, ",".join(map(str, sorted(after, reverse=True)))))
+            if not strays_present:
+                if sid in before or any(sid <= x for x in before) or sorted(before + [sid]) != after:
+                    ctx.violation(dict(case, op="new"), "new shelf id %d not fresh/monotone: before %r after %r" % (sid, before, after))
+        elif r < 0.75:
+            k = rng.choice(before) if before and rng.random() < 0.8 else rng.randint(1, 9)
+            try:
+                mgr.delete_shelf(k)
+                out = "ok"
+            except Exception as e:  # noqa
+                out = "E"
+                ctx.count("mgr:delete-error:" + type(e).__name__)
+            after = mgr.active_shelves()
+            ctx.count("mgr:delete")
+            ctx.case(dict(mgr="delete", before=before, k=k))
+            if not strays_present:
+                cases.append(dict(case, op="delete", k=k))
+                lines.append("mgr %s d%d" % (",".join(map(str, before)) or "-", k))
+                impls.append("%s | %s" % (out, ",".join(map(str, sorted(after, reverse=True))) or "-"))
+                exp = [x for x in before if x != k]
+                if after != exp or (out == "ok") != (k in before):
+                    ctx.violation(dict(case, op="delete", k=k), "delete_shelf(%d): before %r after %r (%s)" % (k, before, after, out))
+            messages.pop(k, None)
+        elif r < 0.9 and before:
+            k = mgr.last_shelf()
+            wt2 = WorkingTree.open(d)
+            with wt2.lock_tree_write():
+                u = wt2.get_shelf_manager().get_unshelver(k)
+                try:
+                    u.make_merger().do_merge()
+                finally:
+                    u.finalize()
+                wt2.get_shelf_manager().delete_shelf(k)
+            wt2.revert()
+            messages.pop(k, None)
+            ctx.count("mgr:unshelve-last")
+            if k != max(before):
+                ctx.violation(dict(case, op="last"), "last_shelf %r is not the newest of %r" % (k, before))
+        else:
+            n = rng.choice(STRAYS)
+            with open(os.path.join(sdir, n), "wb") as f:
+                f.write(b"x")
+            strays_present = True
+            ctx.count("mgr:stray-file")
+        # surviving shelves keep their message
+        for k, m in messages.items():
+            try:
+                got = mgr.get_metadata(k).get(b"message")
+            except Exception as e:  # noqa
+                got = "E:" + type(e).__name__
+            if got != m:
+                ctx.violation(dict(case, op="survive", k=k), "shelf %d lost its content: message %r != %r" % (k, got, m))
+    if ctx.model_available:
+        outs = ctx.model(lines)
+        for c, l, i, m in zip(cases, lines, impls, outs):
+            ctx.traces += 1
+            if c["op"] == "list":
+                m = ",".join(sorted(m.split(","), key=int)) if m != "-" else m
+                i = ",".join(sorted(i.split(","), key=int)) if i != "-" else i
+            elif " | " in m:
+                head, tail = m.split(" | ")
+                m = head + " | " + (",".join(sorted(tail.split(","), key=int, reverse=True)) if tail != "-" else tail)
+            if i != m:
+                ctx.mismatch(c, i, m, line=l)
+    shutil.rmtree(d, ignore_errors=True)
+
+
+def run_git(ctx):
+    """git working trees refuse shelving; nothing may change"""
+    from breezy import workingtree
+    wt = env.make_tree("git")
+    d = wt.basedir
+    with open(d + "/a", "wb") as f:
+        f.write(b"1\n")
+    wt.add(["a"])
+    wt.commit("base")
+    with open(d + "/a", "wb") as f:
+        f.write(b"2\n")
+    before = sorted(os.listdir(d)), open(d + "/a", "rb").read()
+    try:
+        wt.get_shelf_manager()
+        out = "ok"
+    except workingtree.ShelvingUnsupported:
+        out = "E:ShelvingUnsupported"
+    except Exception as e:  # noqa
+        out = "E:" + type(e).__name__
+    ctx.count("git:" + out)
+    ctx.case(dict(git=out), nontrivial=False)
+    if (sorted(os.listdir(d)), open(d + "/a", "rb").read()) != before:
+        ctx.violation(dict(git=True), "git tree changed by a refused shelve")
+    ctx.extra["git_shelving"] = out
+    shutil.rmtree(d, ignore_errors=True)
+
+
+def run(ctx, nscen=None, cap=None):
+    keep, fresh, pathcheck = probe_variant()
+    variant = "".join("T" if x else "F" for x in (keep, fresh, pathcheck))
+    ctx.extra["variant"] = dict(keepExec=keep, freshExec=fresh, pathCheck=pathcheck)
+    nscen = nscen or ctx.pick(16, 160)
+    cap = cap or ctx.pick(20, 64)
+    seeds = [(ctx.seed, FORMATS[i % len(FORMATS)], i) for i in range(nscen)]
+    run_scenarios(ctx, seeds, cap, variant)
+    for i in range(ctx.pick(3, 20)):
+        run_manager(ctx, i)
+    run_git(ctx)
+
+
+def widen(ctx):
+    run(ctx, nscen=60, cap=64)
+
+
+def replay(ctx, case):
+    if "scenario" not in case:
+        return dict(case=case, note="manager / git cases are replayed by re-running the check with the same seed")
+    variant = "".join("T" if x else "F" for x in probe_variant())
+    sc = build_scenario(tuple(case["scenario"]))
+    an = analyse(sc)
+    enc = Enc(an)
+    res = run_case((sc, an, case["sel"], case.get("via", "lines")))
+    r = check_result(ctx, sc, an, enc, case["sel"], case.get("via", "lines"), res, variant)
+    out = dict(case=case, oracle_failures=[v["what"] for v in ctx.violations],
+               impl=dict(err=res["err"], after_shelve=_short(res["d1"][0]),
+                         after_unshelve=_short(res["d2"][0]) if "d2" in res else None, unshelve_error=res.get("uerr")))
+    if r is not None and ctx.model_available:
+        out["model"] = ctx.model([r[1]])[0]
+        compare_model(ctx, enc, r[0], r[1], out["model"], res, r[2])
+        out["agree"] = not ctx.mismatches
+    shutil.rmtree(sc["dir"], ignore_errors=True)
     return out
